@@ -52,6 +52,23 @@ Theorem C39_returns_when_all_reaped : forall c s e, reach c s -> ph s = PGrace e
 Proof. exact drain_enabled. Qed.
 Print Assumptions C39_returns_when_all_reaped.
 
+(* the statements after a successful doCommand: record in childProcs, then start the Wait goroutine, then the hook *)
+Example C39_add_child_order : forall pid s p,
+  add_child pid s p = with_ph p (start_wait pid (length (kids s)) (record_child pid (length (kids s)) s)).
+Proof. reflexivity. Qed.
+
+(* OnChildSpawn rejecting (error or panic) a child — a replacement started during recovery or an initial one —
+   starts a teardown in which every child not yet reaped, the rejected one included, is an entry of
+   childProcs and has been sent SIGTERM (so C39_survivors_all_killed / C39_teardown_complete apply to it) *)
+Theorem C39_hook_error_teardown_reaches_new_child : forall c s o s', reach c s ->
+  (exists old new, ph s = PRecHook old new) \/ (exists i, ph s = PInitHook i) -> o <> HOk ->
+  step c s (EHook o) = Some s' ->
+  (exists e, ph s' = PGrace e /\ e <> ErrOverRecovery) /\
+  length (kids s') = length (kids s) /\
+  Forall (fun k => os k <> Reaped -> sig k = true /\ In (cpid k, cid k) (procs s')) (kids s').
+Proof. exact hook_error_teardown. Qed.
+Print Assumptions C39_hook_error_teardown_reaches_new_child.
+
 (* ---- supervision ---- *)
 
 (* whenever the loop waits for the next exit, childProcs holds exactly GOMAXPROCS children,
